@@ -434,37 +434,51 @@ def fill_range(ex, st, dst, count, val, leaf='', ct=FLOAT):
     ex.frame_range(st, dst.region, dst.off, dst.off + count)
 
 
-_SUMPROD = None
+# ---- finite sums as spec functions.  They are uninterpreted symbols for the solver; their recursive
+# definitions enter only through explicit unfolding instances (unfold_* below), which are instances
+# of the definition and therefore conservative.
+_A = z3.ArraySort(z3.IntSort(), z3.RealSort())
+_SUMPROD = z3.Function('SUMPROD', _A, z3.IntSort(), _A, z3.IntSort(), z3.IntSort(), z3.RealSort())
+_SUMARR = z3.Function('SUMARR', _A, z3.IntSort(), z3.IntSort(), z3.RealSort())
+_SUMSTRIDE = z3.Function('SUMSTRIDE', _A, z3.IntSort(), z3.IntSort(), _A, z3.IntSort(), z3.RealSort())
+_SUMVAR = z3.Function('SUMVAR', _A, z3.IntSort(), _A, z3.IntSort(), z3.RealSort(), z3.IntSort(), z3.RealSort())
 
 
 def sumprod():
-    """SP(a,ao,b,bo,n) = sum_{k<n} a[ao+k]*b[bo+k]   (recursive definition, ideal arithmetic)"""
-    global _SUMPROD
-    if _SUMPROD is None:
-        A = z3.ArraySort(z3.IntSort(), z3.RealSort())
-        f = z3.RecFunction('SUMPROD', A, z3.IntSort(), A, z3.IntSort(), z3.IntSort(), z3.RealSort())
-        a, b = z3.Consts('a b', A)
-        ao, bo, n = z3.Ints('ao bo n')
-        z3.RecAddDefinition(f, [a, ao, b, bo, n],
-                            z3.If(n <= 0, z3.RealVal(0), f(a, ao, b, bo, n - 1) + z3.Select(a, ao + n - 1) * z3.Select(b, bo + n - 1)))
-        _SUMPROD = f
+    """SUMPROD(a,ao,b,bo,n) = sum_{k<n} a[ao+k]*b[bo+k]"""
     return _SUMPROD
 
 
-_SUM = None
-
-
 def sumarr():
-    """S(a,ao,n) = sum_{k<n} a[ao+k]"""
-    global _SUM
-    if _SUM is None:
-        A = z3.ArraySort(z3.IntSort(), z3.RealSort())
-        f = z3.RecFunction('SUMARR', A, z3.IntSort(), z3.IntSort(), z3.RealSort())
-        a = z3.Const('a', A)
-        ao, n = z3.Ints('ao n')
-        z3.RecAddDefinition(f, [a, ao, n], z3.If(n <= 0, z3.RealVal(0), f(a, ao, n - 1) + z3.Select(a, ao + n - 1)))
-        _SUM = f
-    return _SUM
+    """SUMARR(a,ao,n) = sum_{k<n} a[ao+k]"""
+    return _SUMARR
+
+
+def recfun(name):
+    """SUMSTRIDE(a,base,stride,b,n) = sum_{k<n} a[base+k*stride]*b[k];
+    SUMVAR(a,ao,b,bo,m,n) = sum_{k<n} a[ao+k]*(b[bo+k]-m)^2"""
+    return {'SUMSTRIDE': _SUMSTRIDE, 'SUMVAR': _SUMVAR}[name]
+
+
+def unfold_sumprod(a, ao, b, bo, n):
+    return z3.And(_SUMPROD(a, ao, b, bo, z3.IntVal(0)) == 0,
+                  z3.Implies(n >= 0, _SUMPROD(a, ao, b, bo, n + 1) == _SUMPROD(a, ao, b, bo, n) + z3.Select(a, ao + n) * z3.Select(b, bo + n)))
+
+
+def unfold_sumarr(a, ao, n):
+    return z3.And(_SUMARR(a, ao, z3.IntVal(0)) == 0,
+                  z3.Implies(n >= 0, _SUMARR(a, ao, n + 1) == _SUMARR(a, ao, n) + z3.Select(a, ao + n)))
+
+
+def unfold_sumstride(a, base, stride, b, n):
+    return z3.And(_SUMSTRIDE(a, base, stride, b, z3.IntVal(0)) == 0,
+                  z3.Implies(n >= 0, _SUMSTRIDE(a, base, stride, b, n + 1) == _SUMSTRIDE(a, base, stride, b, n) + z3.Select(a, base + n * stride) * z3.Select(b, n)))
+
+
+def unfold_sumvar(a, ao, b, bo, m, n):
+    d = z3.Select(b, bo + n) - m
+    return z3.And(_SUMVAR(a, ao, b, bo, m, z3.IntVal(0)) == 0,
+                  z3.Implies(n >= 0, _SUMVAR(a, ao, b, bo, m, n + 1) == _SUMVAR(a, ao, b, bo, m, n) + z3.Select(a, ao + n) * (d * d)))
 
 
 def algo_call(ex, n, st, name, argn):
@@ -513,6 +527,12 @@ def algo_call(ex, n, st, name, argn):
         a = argn[0]
         return ex.ev_obj(a, st) if a.get('valueCategory') in ('lvalue', 'xvalue') and parse_type(a['type']).kind == 'class' else ex.ev(a, st)
     if name == 'swap':
+        if parse_type(argn[0].get('type')).kind in ('int', 'float'):
+            la, lb = ex.lv(argn[0], st), ex.lv(argn[1], st)
+            va, vb = ex.load(la, st), ex.load(lb, st)
+            ex.store(la, vb, st)
+            ex.store(lb, va, st)
+            return VoidV()
         a, b = [ex.ev_obj(x, st) for x in argn]
         if isinstance(a, ObjRef) and isinstance(b, ObjRef) and class_kind(a.cls) in ('marray', 'vector'):
             swap_regions(ex, st, a.name, b.name)
@@ -566,6 +586,17 @@ def construct(ex, n, st, ct):
             if isinstance(v, Opaque):
                 return v
         return Opaque('string')
+    if '__normal_iterator' in ct.name or 'iterator' in ct.name.split('<')[0]:
+        if len(args) == 1:
+            return ex.ev(args[0], st)
+    if k == 'vector' and len(args) == 2 and parse_type(args[0].get('type')).kind == 'int':
+        # vector(n): n value-initialised elements
+        nval = ex.ev(args[0], st)
+        region = f'local:{ex.pending_name or "vec"}'
+        st.length[region] = nval.t
+        st.arr[(region, '')] = z3.K(z3.IntSort(), z3.RealVal(0))
+        st.leafct[(region, '')] = FLOAT
+        return ObjRef(region, ct.name)
     if k in ('sptr', 'uptr') or k in ('vector', 'marray', 'stdarray', 'string', 'map', 'queue'):
         if len(args) == 1:
             # copy / move / conversion: reference semantics are enough for the units handled
